@@ -243,8 +243,14 @@ fn locs(kind: u8) -> Vec<Locator> {
   match kind {
     0 => vec![loc(7410)],
     1 => vec![loc(7411), Locator::UdpV6(SocketAddrV6::new(Ipv6Addr::new(0xfe80, 0, 0, 0, 0, 0, 0, 1), 7412, 0, 0))],
-    // a locator with an unspecified address, as other vendors announce
-    _ => vec![Locator::UdpV4(SocketAddrV4::new(Ipv4Addr::UNSPECIFIED, 7413)), loc(7414)],
+    // a locator with an unspecified address, as other vendors announce, and a locator of a kind other than UDP
+    // (e.g. a vendor's shared-memory transport) whose 32-bit port does not fit 16 bits
+    _ => vec![
+      Locator::UdpV4(SocketAddrV4::new(Ipv4Addr::UNSPECIFIED, 7413)),
+      loc(7414),
+      Locator::Other { kind: 16, port: 72_946, address: [0, 0, 0, 0, 0, 0, 0, 0, 9, 8, 7, 6, 5, 4, 3, 2] },
+      Locator::UdpV4(SocketAddrV4::new(Ipv4Addr::new(10, 1, 2, 3), 65_535)),
+    ],
   }
 }
 fn durs() -> [Duration; 3] {
@@ -270,7 +276,7 @@ fn spdp_spec() -> Spec<SpdpDiscoveredParticipantData> {
     fields: vec![
       field("expects_inline_qos", &[0x0043], vals!(T, |d: &mut T| d.expects_inline_qos = true)),
       field("metatraffic_unicast_locators", &[0x0032], vals!(T, |d: &mut T| d.metatraffic_unicast_locators = locs(0), |d: &mut T| d.metatraffic_unicast_locators = locs(1), |d: &mut T| d.metatraffic_unicast_locators = locs(2))),
-      field("metatraffic_multicast_locators", &[0x0033], vals!(T, |d: &mut T| d.metatraffic_multicast_locators = locs(0), |d: &mut T| d.metatraffic_multicast_locators = locs(1))),
+      field("metatraffic_multicast_locators", &[0x0033], vals!(T, |d: &mut T| d.metatraffic_multicast_locators = locs(0), |d: &mut T| d.metatraffic_multicast_locators = locs(1), |d: &mut T| d.metatraffic_multicast_locators = locs(2))),
       field("default_unicast_locators", &[0x0031], vals!(T, |d: &mut T| d.default_unicast_locators = locs(0), |d: &mut T| d.default_unicast_locators = locs(2))),
       field("default_multicast_locators", &[0x0048], vals!(T, |d: &mut T| d.default_multicast_locators = locs(0), |d: &mut T| d.default_multicast_locators = locs(1))),
       field("lease_duration", &[0x0002], vals!(T, |d: &mut T| d.lease_duration = Some(durs()[0]), |d: &mut T| d.lease_duration = Some(durs()[1]), |d: &mut T| d.lease_duration = Some(durs()[2]))),
